@@ -58,6 +58,17 @@ theorem container_funcs : containerFuncs =
      "Manager.Len", "Manager.Register", "Manager.UnregisterItem", "PriorityQueue.Close", "PriorityQueue.Dequeue", "PriorityQueue.Enqueue",
      "PriorityQueue.Len", "PriorityQueue.Purge", "PriorityQueue.Values", "Queue.Close", "Queue.Dequeue", "Queue.Enqueue", "Queue.Len",
      "Queue.Purge", "Queue.Values", "heapQueue.Len", "heapQueue.Less", "heapQueue.Pop", "heapQueue.Push"] := by decide
+/-- the idle list (model Pool / Trim / Reap: PopBack takes the last node, Remove refuses a node that is not linked,
+    PopBackIfLonger is one step) and the queue manager (model Manager) are transcriptions of these branches -/
+theorem list_guards :
+    guardsOf "List.Remove" = ["if:node==&l.root||node.prev==nil||node.next==nil"] ∧
+    guardsOf "List.PopBack" = ["if:l.len==0", "if:last!=&l.root"] ∧
+    guardsOf "List.PopBackIfLonger" = ["if:l.len==0||l.len<=min", "if:last==&l.root"] ∧
+    guardsOf "List.NodeSlice" = ["for:node!=&l.root"] := by decide
+theorem manager_guards :
+    guardsOf "Manager.GetRoundRobinItem" = ["if:len(m.items)==0", "if:item.Len()>0", "if:m.roundRobinIndex==start"] ∧
+    guardsOf "Manager.GetMaxLenItem" = ["if:len(m.items)==0", "if:maxItem.Len()==0"] ∧
+    guardsOf "Manager.GetMinLenItem" = ["if:len(m.items)==0", "if:l>0&&(minLen==-1||l<minLen)", "if:minLen==-1"] := by decide
 theorem pq_guards :
     guardsOf "PriorityQueue.Enqueue" = ["if:q.closed.Load()", "if:!ok"] ∧ guardsOf "PriorityQueue.Dequeue" = ["if:q.internal.Len()==0"] := by decide
 
